@@ -6,6 +6,7 @@ from __future__ import annotations
 import copy
 import json
 import random
+import re
 from typing import Any
 
 # ---------------------------------------------------------------------- tree faults
@@ -26,11 +27,19 @@ JUNK: list[tuple[str, Any]] = [
     ("ref-int", {"$ref": 5}),
     ("ref-empty", {"$ref": ""}),
     ("ref-wrong-section", {"$ref": "#/components/responses/Nope"}),
+    ("ref-bad-url", {"$ref": "//["}),                      # urlparse raises ValueError('Invalid IPv6 URL')
+    ("ref-bad-ipv6", {"$ref": "http://[::1/x.yaml#/A"}),
+    ("ref-percent", {"$ref": "#/components/schemas/%zz"}),
+    ("ref-space", {"$ref": "#/components/schemas/A B"}),
+    ("ref-nul", {"$ref": "#/components/schemas/\u0000"}),
+    ("ref-tilde", {"$ref": "#/components/schemas/~2x"}),
     ("nested-list", [[["x"]]]),
     ("str-number", "12"),
     ("float", 1.5),
 ]
 DYN_JUNK = ["ref-ancestor", "copy-parent", "ref-self-component", "wrong-type"]
+# near misses of a string leaf, derived from the value that is there ("3.0.3" -> "3", "3.0.", "3.0.3.", ...)
+STR_DYN_JUNK = ["str-first-char", "str-drop-last", "str-append-dot", "str-first-segment", "str-upper", "str-long-10k"]
 
 SCHEMA_JUNK: list[tuple[str, Any]] = [
     ("bool-true", True),    # boolean schemas are legal JSON Schema (3.1): `items: true`, `additionalProperties: false`, ...
@@ -90,6 +99,15 @@ SCHEMA_JUNK: list[tuple[str, Any]] = [
     ("title-weird", {"type": "object", "title": "1 2 3", "properties": {"a": {"type": "string"}}}),
     ("title-empty", {"type": "object", "title": "", "properties": {"a": {"type": "string"}}}),
     ("deep-nesting", {"type": "array", "items": {"type": "array", "items": {"type": "array", "items": {"type": "array", "items": {"type": "object", "properties": {"a": {"type": "array", "items": {"enum": ["q"]}}}}}}}}),
+    # finite but DEEP nesting (a valid document up to the depth the interpreter's stack allows): placeholders that
+    # dumps() expands textually, so that the harness itself never recurses over them
+    ("deep-arrays-40", "@@VERIF-DEEP:arrays:40@@"),
+    ("deep-arrays-260", "@@VERIF-DEEP:arrays:260@@"),
+    ("deep-arrays-1100", "@@VERIF-DEEP:arrays:1100@@"),
+    ("deep-objects-260", "@@VERIF-DEEP:objects:260@@"),
+    ("deep-oneof-260", "@@VERIF-DEEP:oneof:260@@"),
+    ("deep-allof-260", "@@VERIF-DEEP:allof:260@@"),
+    ("deep-example-lists-5000", "@@VERIF-DEEP:lists:5000@@"),
     ("exclusive-min", {"type": "integer", "minimum": 1, "exclusiveMinimum": True, "maximum": "x"}),
     ("multipleof-zero", {"type": "integer", "multipleOf": 0}),
 ]
@@ -266,6 +284,9 @@ def faults_at(doc: Any, p: tuple) -> list[dict]:
         faults.append({"t": "tree", "op": "replace", "ptr": lp, "junk": name})
     for name in DYN_JUNK:
         faults.append({"t": "tree", "op": "replace", "ptr": lp, "junk": name})
+    if isinstance(v, str) and v:
+        for name in STR_DYN_JUNK:
+            faults.append({"t": "tree", "op": "replace", "ptr": lp, "junk": name})
     kind = looks_like(v, p)
     lib = {"schema": SCHEMA_JUNK, "parameter": PARAM_JUNK, "response": RESPONSE_JUNK, "body": BODY_JUNK}.get(kind or "", [])
     for name, _ in lib:
@@ -303,6 +324,20 @@ def _junk_value(name: str, doc: Any, path: tuple) -> Any:
     for n, v in JUNK:
         if n == name:
             return copy.deepcopy(v)
+    if name in STR_DYN_JUNK:
+        cur = get_at(doc, path)
+        cur = cur if isinstance(cur, str) else "x"
+        if name == "str-first-char":
+            return cur[:1]
+        if name == "str-drop-last":
+            return cur[:-1]
+        if name == "str-append-dot":
+            return cur + "."
+        if name == "str-first-segment":
+            return re.split(r"[./ _#-]", cur, maxsplit=1)[0]
+        if name == "str-upper":
+            return cur.upper() if cur.upper() != cur else cur.lower()
+        return (cur or "x") * (10_000 // max(1, len(cur)) + 1)
     if name == "ref-ancestor":
         anc = path[: max(1, len(path) - 2)]
         return {"$ref": ptr_str(anc)}
@@ -634,11 +669,34 @@ def add_yaml_native(doc: Any, variant: int = 0) -> Any:
     return walk(doc)
 
 
+_DEEP_SHAPES = {
+    "arrays": ('{"type": "array", "items": ', '{"type": "string"}', "}"),
+    "objects": ('{"type": "object", "properties": {"p": ', '{"type": "string"}', "}}"),
+    "oneof": ('{"oneOf": [{"type": "integer"}, ', '{"type": "string"}', "]}"),
+    "allof": ('{"allOf": [', '{"type": "object", "properties": {"a": {"type": "string"}}}', "]}"),
+    "lists": ('{"type": "string", "example": ' + "[" * 1, '"x"', "]}"),
+}
+_DEEP_RE = re.compile(rb"""['"]?@@VERIF-DEEP:(\w+):(\d+)@@['"]?""")
+
+
+def _expand_deep(data: bytes) -> bytes:
+    """Replace each deep-nesting placeholder by its flow-style JSON text (valid in JSON and in YAML documents)."""
+
+    def sub(m: "re.Match[bytes]") -> bytes:
+        kind, n = m.group(1).decode(), int(m.group(2))
+        if kind == "lists":
+            return ('{"type": "string", "example": ' + "[" * n + '"x"' + "]" * n + "}").encode()
+        opener, core, closer = _DEEP_SHAPES.get(kind, _DEEP_SHAPES["arrays"])
+        return (opener * n + core + closer * n).encode()
+
+    return _DEEP_RE.sub(sub, data) if b"@@VERIF-DEEP:" in data else data
+
+
 def dumps(doc: Any, ser: str) -> bytes:
     if ser == "json":
-        return json.dumps(doc, indent=1).encode()
+        return _expand_deep(json.dumps(doc, indent=1).encode())
     if ser == "json-compact":
-        return json.dumps(doc, separators=(",", ":")).encode()
+        return _expand_deep(json.dumps(doc, separators=(",", ":")).encode())
     from io import BytesIO
 
     from ruamel.yaml import YAML
@@ -647,4 +705,4 @@ def dumps(doc: Any, ser: str) -> bytes:
     y.default_flow_style = ser == "yaml-flow"
     buf = BytesIO()
     y.dump(doc, buf)
-    return buf.getvalue()
+    return _expand_deep(buf.getvalue())
